@@ -146,6 +146,38 @@ def _task(task, p):
         p.sample(sub, {"word": [ND if s == 0 else letters[s - 1] for s in idx[r]], "window": [i, j], "entries": ENTRIES})
 
 
+def _grouped_windows_task(task, p):
+    """Two interleaved groups with their OWN calibration windows (positions inside each group's sub-series): every
+    word of length 6, every pair of group-local windows; each group's cells must be the SPI of its sub-series
+    under its own window."""
+    letters, lo, hi = task
+    st = _st()
+    sub = "grouped_windows"
+    n = 6
+    k = len(letters) + 1
+    idx = sse.word_indices(k, n)[lo:hi]
+    x = sse.render(idx, [ND] + letters)
+    g = np.array([0, 1, 0, 1, 0, 1], dtype="int16")
+    members = [np.nonzero(g == v)[0] for v in (0, 1)]
+    wins = [(0, 2), (1, 3), (0, 3)]
+    for w0 in wins:
+        for w1 in wins:
+            ci = np.array([list(w0), list(w1)], dtype="int64")
+            for entry, dt in (("grp2_i16", "int16"), ("grp2_f32", "float32")):
+                try:
+                    out = np.asarray(st.gammastd_grp(x.astype(dt), g, 2, ND, ci))
+                except Exception as e:
+                    p.violation(sub, {"entry": entry, "windows": [list(w0), list(w1)]}, {"kind": "grpwin", "lo": lo, "hi": hi, "letters": letters},
+                                f"{entry} raised {type(e).__name__}: {e} with group windows {w0} / {w1}")
+                    continue
+                for gi, (m, w) in enumerate(zip(members, (w0, w1))):
+                    c, nt, big = compare(out[:, m], idx[:, m], letters, w[0], w[1], f"{entry}[group {gi} of labels [0,1,0,1,0,1], windows {list(w0)} / {list(w1)}]", p, sub,
+                                         rel_f32=(dt == "float32"))
+                    p.count(sub, evaluations=idx.shape[0], nontrivial=idx.shape[0] if w0 != w1 else 0)
+    if lo == 0:
+        p.sample(sub, {"labels": g.tolist(), "group_windows": wins, "words": "all of length 6"})
+
+
 def accessor(ctx, letters):
     import pandas as pd
     import xarray as xr
@@ -330,6 +362,8 @@ def run(ctx):
     maxn = 7 if ctx.thorough() else 6
     tasks = [(n, i, j, letters) for n in range(maxn, 2, -1) for i in range(n) for j in range(i + 2, n + 1)]
     ctx.pmap(_task, tasks)
+    tot = (len(letters) + 1) ** 6
+    ctx.pmap(_grouped_windows_task, [(letters, lo, min(tot, lo + 4096)) for lo in range(0, tot, 4096)])
     ctx.note("alphabet", ["ND"] + letters)
     ctx.note("max_len", maxn)
     accessor(ctx, letters)
@@ -352,10 +386,14 @@ def replay(sub, case, p):
         x = sse.render(idx, [ND] + letters)
         i, j = case["window"]
         entry = case["entry"]
+        if entry.startswith("grp2"):
+            entry = "grp_i16" if "i16" in entry else "grp_f32"      # the group's sub-series alone, same window
         if entry.startswith("spi["):
             entry = "yxt_" + {"int16": "i16", "float64": "f64", "float32": "f64"}[entry[4:-1]]
         out = run_entry(entry, x, i, j)
         compare(out, idx, letters, i, j, case["entry"], p, sub, rel_f32=case["entry"].endswith("f32") or "float32" in case["entry"])
+    elif case["kind"] == "grpwin":
+        _grouped_windows_task((case["letters"], case["lo"], case["hi"]), p)
     elif case["kind"] == "attr_history":
         attr_histories(p)
     elif case["kind"] == "nd_arg":
